@@ -217,6 +217,12 @@ def generate(seed, tier="quick"):
     nchg = sch.choice([0, 1, 2, 3])
     sched = {"mode": mode, "pct_changes": sorted(sch.randrange(1, 120) for _ in range(nchg)),
              "stalls": [[sch.randrange(0, 80), sch.randrange(0, 8 if large else 5), sch.choice([5, 20, 80])] for _ in range(sch.choice([0, 1, 1, 2, 3]))]}
+    # task-level fault (own stream: the rest of the record is what it was without it):
+    # a minority of runs lets one or two worker tasks fail, before they ran or with the result lost
+    flt = stream(seed, "taskfault")
+    if flt.random() < 0.15 and any(o["op"] == "parallel" for o in ops):
+        sched["fails"] = sorted({flt.randrange(0, 10): flt.choice(["before", "after"]) for _ in range(flt.choice([1, 1, 2]))}.items())
+        sched["fails"] = [list(f) for f in sched["fails"]]
     return {"engine": "poolsim", "property": PROP, "seed": seed, "tier": tier, "world": world, "parent": parent, "ops": ops, "sched": sched}
 
 
@@ -482,7 +488,7 @@ class Run:
         sc = rec["sched"]
         chooser = Chooser(rng=stream(rec["seed"], "sched"), recorded=sc.get("choices"))
         sched = simpool.Scheduler(chooser, self.log, mode=sc["mode"], rng=stream(rec["seed"], "prio"), pct_changes=sc.get("pct_changes", ()),
-                                  stalls=[tuple(s) for s in sc.get("stalls", [])], disk=disk)
+                                  stalls=[tuple(s) for s in sc.get("stalls", [])], disk=disk, fails=[tuple(f) for f in sc.get("fails", [])])
         simpool.set_scheduler(sched)
         self.sched = sched
         cfg = build_config(rec["world"])
@@ -514,6 +520,7 @@ class Run:
             if tw is not None or ns is not None:
                 where += f"(sub-config towers={tw} steps={ns})"
                 self.probe("sub_config_op")
+            fired_before = len(sched.failed)
             held_cull = False
             if op.get("hold_cull") and op["op"] == "parallel":
                 held_cull = forklock.hold_next_cull(_ref["clock"])
@@ -537,6 +544,13 @@ class Run:
             except HarnessError:
                 raise
             except Exception as e:
+                if len(sched.failed) > fired_before and _is_injected(e):
+                    # narrow relaxation under the task-failure fault: the call may fail with the
+                    # injected error (it does on the unchanged tree) - it may never return wrong data
+                    self.probe("driver_raised_injected_task_failure")
+                    self.log.add("op-raised-injected", k, op["op"], sched.step)
+                    self.ops_done += 1
+                    continue
                 if type(e).__name__ == "ForkedLockHeld":
                     raise Violation("liveness", "inherited-lock", f"{where}: a worker would block forever: {str(e)[:300]}", {"op": k, "exc": "ForkedLockHeld"})
                 cause = e.__cause__
@@ -548,6 +562,9 @@ class Run:
                     pass
                 raise Violation("returns", "exception", f"{where} raised {type(e).__name__}: {str(e)[:200]}" + (f" | worker: {str(cause)[-600:]}" if cause else ""),
                                 {"op": k, "exc": type(e).__name__, "tb": traceback.format_exc()[-1200:], "stderr": tail})
+            if len(sched.failed) > fired_before:
+                self.probe("driver_returned_despite_task_failure")
+                where += "(after an injected worker-task failure)"
             if op["op"] == "parallel":
                 self.check_towers(out, False, where, tw, ns)
             elif op["op"] == "multitower":
@@ -562,6 +579,16 @@ class Run:
             self.log.add("op-done", k, op["op"], sched.step)
             self.ops_done += 1
         sc["choices"] = list(chooser.made)
+
+
+def _is_injected(e):
+    seen = 0
+    while e is not None and seen < 8:
+        if isinstance(e, simpool.InjectedWorkerFault):
+            return True
+        e = e.__cause__ or e.__context__
+        seen += 1
+    return False
 
 
 def execute(job):
@@ -644,6 +671,16 @@ def simplify(rec):
         c = copy.deepcopy(rec)
         c["sched"]["stalls"] = []
         yield c
+    fl = rec["sched"].get("fails") or []
+    if fl:
+        c = copy.deepcopy(rec)
+        c["sched"]["fails"] = []
+        yield c
+        if len(fl) > 1:
+            for k in range(len(fl)):
+                c = copy.deepcopy(rec)
+                del c["sched"]["fails"][k]
+                yield c
     # truncate recorded choices (default policy afterwards)
     ch = rec["sched"].get("choices") or []
     for cut in (len(ch) // 2, len(ch) * 3 // 4):
@@ -821,7 +858,8 @@ def evidence(plan_, executed, tier, master_seed):
         "worker_yield_points_by_file_operation": yk,
         "parent_states": parent_states,
         "driver_calls": strategies,
-        "faults_injected": {"stall (worker not scheduled for n steps)": stats.get("stall_skips", 0), "state-losing faults": "none by design: C14 quantifies over schedules and configurations"},
+        "faults_injected": {"stall (worker not scheduled for n steps)": stats.get("stall_skips", 0), "worker task fails (before it ran / result lost); the driver may raise the injected error, never return wrong data": stats.get("task_failures_injected", 0),
+                            "state-losing faults": "none by design: C14 quantifies over schedules and configurations"},
         "components": {
             "bldfm (interface, solver, cache, fft_manager, utils, config_parser, pbl_model)": "real, from the repository's src",
             "os.fork workers, pipes, pickling of tasks and results, Future objects": "real",
